@@ -28,7 +28,8 @@ def make_geom(alt, lat=0.0, lon=0.0, limb=np.radians(7.0), cone=np.radians(3.0),
     cfg.simulation.max_azimuth_angle = float(azi)
     g = RegionGeom(cfg)
     # what the constructor actually read (units/validators of the config may have touched the values)
-    g._verif_cfg = (float(cfg.detector.initial_position.altitude), float(g.detLat), float(g.detLong),
+    # (the detector position is the CONFIGURED one: the oracle and the model may not take it from the object under test)
+    g._verif_cfg = (float(cfg.detector.initial_position.altitude), float(cfg.detector.initial_position.latitude), float(cfg.detector.initial_position.longitude),
                     float(cfg.simulation.angle_from_limb), float(cfg.simulation.max_cherenkov_angle),
                     float(cfg.simulation.max_azimuth_angle))
     return g
